@@ -1,4 +1,5 @@
-"""C01 — agreement. Layer A/N theorems (Props/C01) + network runs with pairwise-decision oracle."""
+"""C01 — agreement. Layer A/N theorems, Layer B refinement (agreement_model: any family of honest runs of the
+executable model of gpbft.go agrees) + network runs with pairwise-decision oracle and MsgValid check."""
 from checks import gpbft_common as g
 
 
@@ -7,11 +8,13 @@ def run(ctx):
     g.network(ctx, "C01-")
     return ctx.finish(
         rule=g.RULE + " Oracle C01: all honest decisions of a run are equal.",
-        trusted_base=g.TRUSTED + ["Layer B (model emits only under the guards of F3.Granite.Guard, decides only on a DECIDE quorum) is "
-                                  "held by correspondence + the C07 theorems, not yet by a single refinement theorem"],
+        trusted_base=g.TRUSTED + [
+            "agreement_model's hypotheses about the environment: every delivered message satisfies F3.Instance.MsgValid (its vote "
+            "and the votes aggregated by its justification exist; shape per phase) — the shape half is re-checked by the driver "
+            "on every message the real validator let through (msgStructB, proved sound: msgValidB_sound), the existence half is "
+            "signature verification (C05) under unforgeability; a run reports no internal error (C07 oracle)"],
         assumptions=["signature unforgeability (hypothesis: a vote of an honest member exists only if it emitted it)",
                      "faulty members hold < 1/3 of scaled power",
                      "mid-instance restarts are out of scope here (C12 composes)"],
         search=g.search("C01-"),
-        partial=["agreement_network_refinement: bridge from F3.Instance.step to F3.Granite.Step not mechanised"],
     )
